@@ -4,7 +4,7 @@ CONSTANTS
  Mode = "coded"
  Defect = "none"
  Cfgs <- CEagerRel
- MaxCalls = 6
+ MaxCalls = 5
  Rounds = {1, 2, 3, 4}
  Steps = {1000}
  MaxTime = 6000
